@@ -6,6 +6,9 @@ import time
 from . import harness as H
 
 CHECKS = {
+    **{f"C03:numpy-{K}": (lambda K=K: H.chk_numpy(K, exclude_kids=("Count",) if K in ("UntypedLabel", "Branch") else ())) for K in H.CLASSES},
+    "C03:numpy-UntypedLabel-count-first": lambda: H.chk_numpy("UntypedLabel", only_kids=("Count",)),
+    "C03:numpy-Branch-count-first": lambda: H.chk_numpy("Branch", only_kids=("Count",)),
     "C11:pickle": lambda: H.chk_pickle(),
     "C16:sharing": lambda: H.chk_sharing(),
     "C06:Bag.json": lambda: H.chk_tojson_frame("Bag"),
